@@ -55,7 +55,31 @@ def math_sqrt(ex, args, kwargs, node, st):
     return vsqrt(vlit(v))
 
 
-LIB['np.sqrt'] = math_sqrt
+@lib('np.sqrt')
+def np_sqrt(ex, args, kwargs, node, st):
+    """np.sqrt: scalar, or elementwise on an ndarray (A3) -- a new array, the argument is untouched"""
+    v = args[0]
+    if isinstance(v, Ref) and isinstance(st.heap[v.oid], ArrObj):
+        o = st.heap[v.oid]
+        oid = st.new_oid('N')
+        if o.items is not None:
+            import math
+            if o.shape is not None:
+                items = [[math.sqrt(x) if concrete(x) else vsqrt(vlit(x)) for x in row] for row in o.items]
+            else:
+                items = [math.sqrt(x) if concrete(x) else vsqrt(vlit(x)) for x in o.items]
+            st.heap[oid] = o.clone(items=items, origin='local', name='')
+            return Ref(oid)
+        i, j = z3.Consts('sq_i!%d sq_j!%d' % (ex.qcount(), ex.qcount()), IntS)
+        if o.shape is not None:
+            new = fresh('npsqrt', arr2sort(Val))
+            st.assume(z3.ForAll([i, j], sel2(new, i, j) == vsqrt(sel2(o.arr, i, j)), patterns=[sel2(new, i, j)]))
+        else:
+            new = fresh('npsqrt', z3.ArraySort(IntS, Val))
+            st.assume(z3.ForAll([i], z3.Select(new, i) == vsqrt(z3.Select(o.arr, i)), patterns=[z3.Select(new, i)]))
+        st.heap[oid] = o.clone(arr=new, origin='local', name='')
+        return Ref(oid)
+    return math_sqrt(ex, args, kwargs, node, st)
 
 
 @lib('math.isinf')
